@@ -83,11 +83,7 @@ theorem XInv.step {cfg : Cfg} {s s' : State} {t : Tid} {a : Act} (hs : XInv s)
         cases hc : s.cache (r, tp) with
         | some v =>
           simp only
-          split
-          · exact hs.local' t [.dead] [_] rfl (List.nil_sublist _) rfl rfl rfl
-              (by intro f hf; simp at hf; subst hf; trivial) rfl
-              (by intro e he; simp at he; subst he; trivial)
-          · exact hs.local' t _ [_] (retExc_thr ..) (sublist_of_eq (owned_deliverStack ..))
+          exact hs.local' t _ [_] (retExc_thr ..) (sublist_of_eq (owned_deliverStack ..))
               (retExc_wip ..) (retExc_pend ..) (retExc_npend ..)
               (xframe_deliverStack (hs.frames t) _) (retExc_hist ..)
               (by intro e he; simp at he; subst he; trivial)
@@ -441,18 +437,14 @@ theorem XInv.step {cfg : Cfg} {s s' : State} {t : Tid} {a : Act} (hs : XInv s)
       have hsub : ∀ res', (owned (deliverStack rest res')).Sublist (owned (s.thr t)) := by
         intro res'; rw [e, owned_deliverStack, owned_cons_none _ rfl]; exact List.Sublist.refl _
       split at h
-      · split at h
+      · next hdone =>
+        split at h
         · next v hout =>
-          split at h
-          · cases h
-            exact hs.local' t [.dead] [_] rfl (List.nil_sublist _) rfl rfl rfl
-              (by intro f hf; simp at hf; subst hf; trivial) rfl
-              (by intro e he; simp at he; subst he; exact ⟨htop, fun hne => absurd rfl hne⟩)
-          · cases h
-            exact hs.local' t _ [_] (retExc_thr ..) (hsub _) (retExc_wip ..) (retExc_pend ..)
-              (retExc_npend ..) (xframe_deliverStack hrest _) (retExc_hist ..)
-              (by intro e he; simp at he; subst he
-                  exact ⟨by rw [retExc_npend]; exact htop, fun _ => by rw [retExc_pend]; exact hout⟩)
+          cases h
+          exact hs.local' t _ [_] (retExc_thr ..) (hsub _) (retExc_wip ..) (retExc_pend ..)
+            (retExc_npend ..) (xframe_deliverStack hrest _) (retExc_hist ..)
+            (by intro e he; simp at he; subst he
+                exact ⟨by rw [retExc_npend]; exact htop, fun _ => by rw [retExc_pend]; exact hout⟩)
         · next er hout =>
           cases h
           exact hs.local' t _ [_] (retExc_thr ..) (hsub _) (retExc_wip ..) (retExc_pend ..)
@@ -460,10 +452,7 @@ theorem XInv.step {cfg : Cfg} {s s' : State} {t : Tid} {a : Act} (hs : XInv s)
             (by intro e he; simp at he; subst he
                 exact ⟨by rw [retExc_npend]; exact htop, fun _ => by rw [retExc_pend]; exact hout⟩)
         · cases h
-        · cases h
-          exact hs.local' t [.dead] [_] rfl (List.nil_sublist _) rfl rfl rfl
-            (by intro f hf; simp at hf; subst hf; trivial) rfl
-            (by intro e he; simp at he; subst he; exact ⟨htop, fun hne => absurd rfl hne⟩)
+        · next hout => exact absurd hout (hs.doneOut p hdone)
       · cases h
     · cases h
 
